@@ -535,7 +535,7 @@ MoveInfo Position::do_move(Move move)
     }
 
     assert(_history_counter < MAX_PLIES);
-    VERIF_BOUND(_history_counter, MAX_PLIES, "position.cpp:history");
+    VERIF_BOUND(_history_counter, std::size(_history), "position.cpp:history");
     _history[_history_counter++] = _zobrist_hash.get_key();
 
     return create_moveinfo(captured, prev_castling, prev_enpassant_sq,
